@@ -136,7 +136,7 @@ Lemma gen_roundtrip_classification
 Proof.
   intros H1 H2 H3 H4 fs ids0 c0 Hwf Hnd Hnew.
   destruct (roundtrip_partial Q fmtf parsef fmt8 parse_int H1 H2 H3 H4 fs ids0 c0 Hwf Hnd Hnew)
-    as [c' E].
+    as (c' & E & _).
   exists fs, (ids0 ++ map (f_id Q) fs, c'). split; [exact E|]. split; [reflexivity|].
   intros k f f' pts Hf Hf'. rewrite Hf in Hf'. injection Hf' as <-. repeat split.
 Qed.
